@@ -96,6 +96,18 @@ func (h *ByronMainBlockHeader) UnmarshalCBOR(cborData []byte) error {
 	return nil
 }
 
+// MarshalCBOR returns the original wire bytes of a decoded block header so that
+// re-serialising an unmodified object reproduces exactly the bytes its hash was
+// computed over (non-canonical encodings included); objects built in-process
+// are encoded from their fields.
+func (h *ByronMainBlockHeader) MarshalCBOR() ([]byte, error) {
+	if cborData := h.Cbor(); cborData != nil {
+		return cborData, nil
+	}
+	type tByronMainBlockHeader ByronMainBlockHeader
+	return cbor.Encode((*tByronMainBlockHeader)(h))
+}
+
 func (h *ByronMainBlockHeader) Hash() common.Blake2b256 {
 	if h.hash == nil {
 		// Prepend bytes for CBOR list wrapper
@@ -1064,6 +1076,18 @@ func (h *ByronEpochBoundaryBlockHeader) UnmarshalCBOR(cborData []byte) error {
 	return nil
 }
 
+// MarshalCBOR returns the original wire bytes of a decoded block header so that
+// re-serialising an unmodified object reproduces exactly the bytes its hash was
+// computed over (non-canonical encodings included); objects built in-process
+// are encoded from their fields.
+func (h *ByronEpochBoundaryBlockHeader) MarshalCBOR() ([]byte, error) {
+	if cborData := h.Cbor(); cborData != nil {
+		return cborData, nil
+	}
+	type tByronEpochBoundaryBlockHeader ByronEpochBoundaryBlockHeader
+	return cbor.Encode((*tByronEpochBoundaryBlockHeader)(h))
+}
+
 func (h *ByronEpochBoundaryBlockHeader) Hash() common.Blake2b256 {
 	if h.hash == nil {
 		// Prepend bytes for CBOR list wrapper
@@ -1138,6 +1162,18 @@ func (b *ByronMainBlock) UnmarshalCBOR(cborData []byte) error {
 	return nil
 }
 
+// MarshalCBOR returns the original wire bytes of a decoded block so that
+// re-serialising an unmodified object reproduces exactly the bytes its hash was
+// computed over (non-canonical encodings included); objects built in-process
+// are encoded from their fields.
+func (b *ByronMainBlock) MarshalCBOR() ([]byte, error) {
+	if cborData := b.Cbor(); cborData != nil {
+		return cborData, nil
+	}
+	type tByronMainBlock ByronMainBlock
+	return cbor.Encode((*tByronMainBlock)(b))
+}
+
 func (ByronMainBlock) Type() int {
 	return BlockTypeByronMain
 }
@@ -1210,6 +1246,18 @@ func (b *ByronEpochBoundaryBlock) UnmarshalCBOR(cborData []byte) error {
 	*b = ByronEpochBoundaryBlock(tmp)
 	b.SetCbor(cborData)
 	return nil
+}
+
+// MarshalCBOR returns the original wire bytes of a decoded block so that
+// re-serialising an unmodified object reproduces exactly the bytes its hash was
+// computed over (non-canonical encodings included); objects built in-process
+// are encoded from their fields.
+func (b *ByronEpochBoundaryBlock) MarshalCBOR() ([]byte, error) {
+	if cborData := b.Cbor(); cborData != nil {
+		return cborData, nil
+	}
+	type tByronEpochBoundaryBlock ByronEpochBoundaryBlock
+	return cbor.Encode((*tByronEpochBoundaryBlock)(b))
 }
 
 // BodyCbor returns the original CBOR bytes of the epoch boundary block body,
